@@ -272,7 +272,14 @@ func sendOrder(e *Env) {
 	}
 	// With flood protection off and a server that keeps reading, everything
 	// handed to the client must reach the wire: generous simulated bound.
-	bound := time.Hour + time.Duration(total)*30*time.Second
+	// (a split sender's call becomes up to 201/(SplitLen-3) pieces plus its short line)
+	boundLines := total + 400 // (the client's PONGs to the server's PINGs share the queue)
+	for _, sd := range senders {
+		if sd.split {
+			boundLines += sd.n * (2 + 201/(splitLen-3))
+		}
+	}
+	bound := time.Hour + time.Duration(boundLines)*30*time.Second
 	if !simrt.BlockFor("send.main", "all senders to return", bound, allDone) {
 		e.Violation("sender-stuck", "a sender did not return although the connection is up and the server keeps reading\n%s", e.S.TaskDump())
 		return
